@@ -608,4 +608,15 @@ impl TurnClient {
     pub async fn verif_set_next_channel(&self, n: u16) {
         *self.next_channel.lock().await = n;
     }
+
+    /// Verification hook (additive, `--cfg rustrtc_verif` only): bind a channel for `peer` with
+    /// the production request builder, send path and channel table - what a connectivity check
+    /// through this relay does after CreatePermission. Needed for relays allocated over TURN/TCP,
+    /// which ICE never pairs with UDP peers. The response is consumed by the normal read loop.
+    pub async fn verif_bind_channel(&self, peer: SocketAddr) -> Result<u16> {
+        let (bytes, _tx, channel) = self.create_channel_bind_packet(peer).await?;
+        self.send(&bytes).await?;
+        self.add_channel(peer, channel).await;
+        Ok(channel)
+    }
 }
